@@ -72,3 +72,19 @@ Record view_jac_code := mk_vj {             (* MeritFuctionView.get_jacobian *)
 Record view_call_code := mk_vc {            (* MeritFuctionView.__call__ *)
   vc_prescale : string;
   vc_kwargs : list string }.
+
+(* where a keyword argument of a call comes from *)
+Inductive arg_src :=
+| ArgParam (name : string)     (* a parameter of the enclosing method *)
+| ArgLocal (name : string)     (* a local variable *)
+| ArgSelf (attr : string)      (* self.<attr>: state of the object *)
+| ArgOther (src : string).
+
+Record step_code := mk_step {                       (* JacobianSolver.step, Optimize.step, Optimize.solve *)
+  sc_lstsq_kwargs : list (string * arg_src);        (* jac_svd.lstsq(y[mask_output], <kw> = ...): the Newton step *)
+  sc_params : list string;                          (* parameters of JacobianSolver.step *)
+  sc_params_rebound : list string;                  (* parameters assigned to inside step *)
+  sc_self_stores : list string;                     (* self.<name> assigned anywhere in JacobianSolver, name a step parameter / lstsq keyword *)
+  sc_optimize_step_kwargs : list (string * arg_src);(* self.solver.step(<kw> = ...) in Optimize.step *)
+  sc_solve_kwargs : list (string * arg_src);        (* self.step(..., <kw> = ...) in Optimize.solve *)
+  sc_broyden_update : bool }.                       (* jac = last + outer(dy - last @ dx, dx) / (dx . dx), cache = (x, jac, y) of every step *)
